@@ -316,7 +316,11 @@ func (w *World) enabled() []Event {
 		dlv := Event{Name: "dlv:" + hw.ID + ":" + desc, tgt: hw.Inst, run: func() { hw.queue = hw.queue[1:]; w.deliver(hw, head) }}
 		drop := Event{Name: "drop:" + hw.ID + ":" + desc, tgt: hw.Inst, run: func() { hw.queue = hw.queue[1:]; w.ev(Ev{K: "watch.drop", I: hw.Inst, S: desc}) }}
 		dup := Event{Name: "dup:" + hw.ID + ":" + desc, tgt: hw.Inst, run: func() { w.deliver(hw, head) }}
-		if s.DropAll && !head.Nil {
+		if s.HoldWatch && !head.Nil {
+			if w.devAllowed(hw.Inst) {
+				alts = append(alts, dlv)
+			}
+		} else if s.DropAll && !head.Nil {
 			def = append(def, drop)
 			if w.devAllowed(hw.Inst) {
 				alts = append(alts, dlv)
@@ -493,7 +497,7 @@ func RunOnce(t *testing.T, scn *Scenario, prefix []string, keepTrace bool) (res 
 				w.passTime()
 				continue
 			}
-			if scn.FineAt != "" && !w.fineUsed && e.Name == scn.FineAt {
+			if scn.FineAt != "" && !w.fineUsed && w.fineAtMatches(e.Name) {
 				w.fineOn, w.fineUsed = true, true
 				w.gnames, w.glabels = map[int]string{}, map[string]int{}
 				w.ev(Ev{K: "fine.on", S: e.Name})
@@ -810,4 +814,21 @@ func opSeq(op *Op) int {
 	n := 0
 	fmt.Sscanf(op.ID[i+1:], "%d", &n)
 	return n
+}
+
+// fineAtMatches: FineAt is an exact event name, or "create-wins:<inst>" = the answer of
+// a Create of that instance that is going to succeed (no live record right now).
+func (w *World) fineAtMatches(name string) bool {
+	at := w.scn.FineAt
+	if at == name {
+		return true
+	}
+	if strings.HasPrefix(at, "create-wins:") {
+		inst := strings.TrimPrefix(at, "create-wins:")
+		if strings.HasPrefix(name, "ok:"+inst+".") && strings.Contains(name, ".Create#") {
+			in := w.insts[inst]
+			return in != nil && w.store.Live(in.group(), w.now()) == nil
+		}
+	}
+	return false
 }
